@@ -45,6 +45,14 @@ DIRECTIVES = [{"binding": False}, {"optimize.use_switch": False}, {"optimize.unp
               {"always_allow_keywords": False}, {"optimize.inline_defnode_calls": False}]
 
 
+# Directives that are NOT behaviour-neutral for a donor, by documentation:
+# * binding=False: functions become non-binding builtin-like callables; the evalorder header installs the operator
+#   methods of its logging class with setattr(Px, "__lt__", <function>), which then no longer bind ("fwd() takes exactly
+#   2 positional arguments (1 given)").
+# * always_allow_keywords=False: one-argument functions take no keyword arguments; the kernel donor calls f1(x=b).
+NOT_NEUTRAL_FOR = {"evalorder": {"binding"}, "cfgkernels": {"always_allow_keywords"}}
+
+
 def donors():
     out = [("pyprog", pyprog, {"header": pyprog.HEADER, "setup": None, "always_log": False, "kw": {"max_depth": 3}}),
            ("cfgkernels", cfgkernels, {"header": cfgkernels.HEADER, "setup": "Box = M.Box\n", "always_log": False, "kw": {}})]
@@ -212,6 +220,10 @@ def _module_job(job):
     base_pre = {}
     attributed = {}
     for cell in cells_for(seed, tier, mi):
+        if cell[4] and set(cell[4]) & NOT_NEUTRAL_FOR.get(dname, set()):
+            # the directive is documented to change exactly what this donor does (see NOT_NEUTRAL_FOR)
+            part.count("cells_skipped:directive-not-neutral-for-donor")
+            continue
         cname, cplus, flags, defines, directives = cell
         ccase = {"header": dinfo["header"], "setup": dinfo["setup"], "always_log": dinfo["always_log"], "cplus": cplus,
                  "flags": flags, "defines": defines, "directives": directives, "cell": cname}
@@ -290,7 +302,7 @@ def run(ctx):
                 "cell (C, -O0). non-trivial = the cell's preprocessed translation unit differs from the baseline's (-E -P hash) or the "
                 "cell changes optimisation level / language / directives; distinct by (item source, call, cell)")
     ctx.assumptions = ["the baseline cell (C, -O0, default macros) is the comparison point; its own agreement with CPython is judged by the donor properties",
-                       "donor calls are positional, so always_allow_keywords=False is behaviour-neutral for them"]
+                       "donor calls are positional, so always_allow_keywords=False is behaviour-neutral for them (the kernel donor, which calls f1(x=b), and the evalorder donor under binding=False are skipped: NOT_NEUTRAL_FOR)"]
 
 
 def replay(ctx, case):
